@@ -110,6 +110,11 @@ class ProgramsContract:
     qualname = '<generated>.Model._evaluate'
     props = ('C01', 'C04', 'C20')
 
+    regions = {
+        # recorded finding: a variable whose name starts with an underscore is generated as `self.__name`, which Python mangles
+        'underscore-name': lambda inputs, ob: z3.BoolVal(ob.note == 'uses-underscore-name'),
+    }
+
     def __init__(self, programs: Sequence[Tuple[str, List[G.Eq], G.Layout]]):
         self.programs = {name: (eqs, lay) for name, eqs, lay in programs}
         self.shards = {}
@@ -131,6 +136,7 @@ class ProgramsContract:
         fn = next(n for n in ast.walk(tree) if isinstance(n, ast.FunctionDef) and n.name == '_evaluate')
         import fsic.parser as fp
         fi = FuncInfo(fn, fp, f'{self.qualname}[{scen}]', owner=None)
+        fi.mangle_class = 'Model'     # generated code lives in `class Model`: private names are mangled
         import hashlib
         rep.sha256 = hashlib.sha256(code.encode()).hexdigest()
         names = list(Model.NAMES)
@@ -152,7 +158,7 @@ class ProgramsContract:
             data0 = ctx.fresh('data', STORE)
             store = VarStore(data0, n)
             log: List[Tuple] = []
-            obj = SObj(Model, {}, label='model')
+            obj = SObj(Model, {'index': ['status', 'iterations'] + list(names)}, label='model')
             obj.varstore = store
             obj.known_vars = tuple(names)
             obj.on_var_access = lambda pyname, vv: LoggedView(store, vv.name, pyname, log)
@@ -162,7 +168,9 @@ class ProgramsContract:
             try:
                 interp.call_function(fi, [obj, SInt(t)], {}, self_obj=obj)
             except PyRaise as pr:
-                ctx.prove(False, f'evaluation_pass_raises:{getattr(pr.exc, "cls", type(pr.exc)).__name__}@{getattr(pr.exc, "origin", "")}', 'raises')
+                under = any(v.name.startswith('_') for q in eqs for v in [q.lhs] + G.terms(q.rhs))
+                ctx.prove(False, f'evaluation_pass_raises:{getattr(pr.exc, "cls", type(pr.exc)).__name__}@{getattr(pr.exc, "origin", "")}', 'raises',
+                          note='uses-underscore-name' if under else '')
                 return 'raise'
             # ---- reference: Gauss-Seidel over the tree, statement by statement on scalars ----
             writes = [w for w in log if w[0] == 'w']
